@@ -1,10 +1,18 @@
-"""C08: preconditioners apply exactly their defining linear operator (spec/Precond.tla, harness/c08_precond.cpp).
+"""C08: preconditioners apply exactly their defining linear operator.
+
+Three parts, one TLC-generated case stream each, replayed on the real classes with exact comparison:
+  scalar   spec/Precond.tla     -> harness/c08_precond.cpp      SparseMatrixCSR<double>, UnitFilter
+  blocked  spec/PrecondBlk.tla  -> harness/c08_precond_blk.cpp  SparseMatrixBCSR<double,Index,BS,BS> / DenseVectorBlocked /
+                                                                UnitFilterBlocked, BS = 2, 3
+  ilusym   spec/IluSym.tla      -> harness/c08_ilusym.cpp       ILU(p) level-of-fill patterns on n = 5..10 (ILUCoreSymbolic)
 
 TLC enumerates matrices (all sparsity patterns containing the diagonal, dyadic value palettes with power-of-two
-diagonals), preconditioner kinds and parameters, filters and life-cycle histories; the exact dyadic definitions of
-spec/Precond.tla predict the result of every apply(); the replayer compares the real classes with ==.  TLC also
-checks the sanity laws of the definitions themselves (defining relations of Jacobi/SOR/SSOR, LU = A on the level-p
-pattern, complete fill => A^-1, linearity) on every generated input.
+diagonals resp. diagonal blocks of determinant +-2^k, non-symmetric and non-commuting blocks included), preconditioner
+kinds and parameters, filters and life-cycle histories; the exact dyadic definitions of the specifications predict the
+result of every apply(); the replayers compare the real classes with ==.  TLC also checks the sanity laws of the
+definitions themselves (defining relations of Jacobi/SOR/SSOR, block inverse, LU = A on the level-p pattern, complete
+fill => A^-1, linearity, blocked definitions with BS = 1 == scalar definitions, level recurrence == fill-path
+characterisation) on every generated input.
 """
 import os, json
 import concurrent.futures as cf
@@ -13,16 +21,32 @@ import vlib
 LEVEL = "model_checking"
 ALL = ["jacobi", "sor", "ssor", "poly", "ilu", "scale", "diagonal", "matrix"]
 INV = "SorRelation SsorRelation JacobiRelation IluLaws Linearity LifeOK Emit"
+BLAWS = "BInvLaw BJacobiRelation BSorRelation BSsorRelation BIluLaws BLinearity ScalarConsistency BLifeOK"
+HARNESS = {"scalar": "c08_precond", "blocked": "c08_precond_blk", "ilusym": "c08_ilusym"}
+
+
+def st(x):
+    return "{" + ", ".join(('"%s"' % v) if isinstance(v, str) else str(v) for v in x) + "}"
 
 
 def cfg_text(ns, kinds, pals, minoff, maxoff, filters, mode="canon", maxhist=0):
-    def st(x):
-        return "{" + ", ".join(('"%s"' % v) if isinstance(v, str) else str(v) for v in x) + "}"
     return ("SPECIFICATION Spec\nCONSTANTS NS = %s Kinds = %s Pals = %s MinOff = %d MaxOff = %d Filters = %d Mode = \"%s\" MaxHist = %d\n"
             "INVARIANTS %s\nCHECK_DEADLOCK FALSE\n" % (st(ns), st(kinds), st(pals), minoff, maxoff, filters, mode, maxhist, INV))
 
 
-def jobs_for(tier):
+def cfg_blk(bs, ns, kinds, pals, minoff, maxoff, filters, mode="canon", maxhist=0, emit=True):
+    return ("SPECIFICATION BSpec\nCONSTANTS NS = %s Kinds = %s Pals = %s MinOff = %d MaxOff = %d Filters = %d Mode = \"%s\" MaxHist = %d BS = %d\n"
+            "INVARIANTS %s%s\nCHECK_DEADLOCK FALSE\n" % (st(ns), st(kinds), st(pals), minoff, maxoff, filters, mode, maxhist, bs, BLAWS,
+                                                         " BEmit" if emit else ""))
+
+
+def cfg_sym(ns, seeds, dens, pmax, crafted):
+    return ("SPECIFICATION Spec\nCONSTANTS NS = %s Seeds = %s Dens = %s PMax = %d VSeed = %d Crafted = %s\n"
+            "INVARIANTS FillPathLaw Monotone Emit\nCHECK_DEADLOCK FALSE\n" % (st(ns), st(seeds), st(dens), pmax, vlib.seed() % 1000,
+                                                                              "TRUE" if crafted else "FALSE"))
+
+
+def jobs_scalar(tier):
     j = []
     # n = 2, 3: every pattern, three value palettes, every kind and parameter, with and without filtered dofs
     for k in ALL:
@@ -44,30 +68,82 @@ def jobs_for(tier):
         j.append(("n=4 tri 0..3", cfg_text([4], ["sor", "ssor", "ilu"], [1], 0, 3, 0)))
         j.append(("n=4 ilu 4", cfg_text([4], ["ilu"], [2], 4, 4, 0)))
         j.append(("histories n=2", cfg_text([2], ALL, [1], 1, 2, 0, "hist", 5)))
-    return j
+    return [("scalar", "Precond", n, t) for n, t in j]
+
+
+POINTWISE = ["jacobi", "scale", "diagonal", "matrix"]
+BLOCKSUB = ["sor", "ssor", "ilu"]
+
+
+def jobs_blocked(tier):
+    j = []
+    if tier == "thorough":
+        for bs in (2, 3):
+            for k in BLOCKSUB:                     # every block pattern, every palette, filters
+                for pl in (1, 2, 3):
+                    j.append(("blk%d n<=3 %s pal%d" % (bs, k, pl), cfg_blk(bs, [1, 2, 3], [k], [pl], 0, 99, 1)))
+            for pl in (1, 2, 3):
+                j.append(("blk%d n<=3 pointwise pal%d" % (bs, pl), cfg_blk(bs, [1, 2, 3], POINTWISE, [pl], 0, 99, 1)))
+                j.append(("blk%d n<=3 poly pal%d" % (bs, pl), cfg_blk(bs, [2, 3], ["poly"], [pl], 0, 99, 1)))
+            j.append(("blk%d histories n=2" % bs, cfg_blk(bs, [2], ALL, [1, 2], 0, 2, 0, "hist", 6)))
+            j.append(("blk%d histories n=3" % bs, cfg_blk(bs, [3], ["sor", "ssor", "ilu", "poly", "jacobi"], [3], 3, 3, 0, "hist", 5)))
+        j.append(("blk1 == scalar", cfg_blk(1, [1, 2, 3], ALL, [1, 2, 3], 0, 99, 1, emit=False)))
+    else:
+        # block size 2: every block pattern for the block-substitution kinds; block size 3: n = 2 complete, n = 3 sharded
+        for pl in (1, 2, 3):
+            j.append(("blk2 n<=3 ssor pal%d" % pl, cfg_blk(2, [2, 3], ["ssor"], [pl], 0, 99, 1)))
+        for k in ("ilu", "sor"):
+            j.append(("blk2 n<=3 %s" % k, cfg_blk(2, [2, 3], [k], [1, 2, 3], 0, 99, 1)))
+        for k in BLOCKSUB:
+            j.append(("blk3 n=3 %s" % k, cfg_blk(3, [3], [k], [1, 2], 0, 4, 0)))
+        j.append(("blk3 n<=2", cfg_blk(3, [1, 2], ALL, [1, 2, 3], 0, 99, 1)))
+        j.append(("blk3 n=3 pointwise", cfg_blk(3, [3], POINTWISE, [2], 3, 3, 1)))
+        j.append(("blk3 n=3 poly", cfg_blk(3, [3], ["poly"], [2], 2, 2, 0)))
+        j.append(("blk2 n<=3 pointwise", cfg_blk(2, [2, 3], POINTWISE, [1, 3], 0, 3, 1)))
+        j.append(("blk2 n<=3 poly", cfg_blk(2, [2, 3], ["poly"], [1], 0, 3, 1)))
+        j.append(("blk2 histories n=2", cfg_blk(2, [2], ALL, [1], 1, 2, 0, "hist", 5)))
+        j.append(("blk1 == scalar", cfg_blk(1, [2, 3], ALL, [1], 0, 99, 0, emit=False)))
+    return [("blocked", "PrecondBlk", n, t) for n, t in j]
+
+
+def jobs_ilusym(tier):
+    j = []
+    if tier == "thorough":
+        for n in (5, 6, 7, 8, 9, 10):
+            j.append(("ilusym n=%d" % n, cfg_sym([n], list(range(1, 301)), [10, 15, 20, 30, 40], 4, True)))
+    else:
+        j.append(("ilusym n=5..8", cfg_sym([5, 6, 7, 8], list(range(1, 41)), [20, 30], 4, True)))
+        j.append(("ilusym n=9,10", cfg_sym([9, 10], list(range(1, 41)), [20, 30], 4, True)))
+    return [("ilusym", "IluSym", n, t) for n, t in j]
 
 
 def generate(chk):
+    # one pool for all parts; the long jobs are submitted first
+    sc = jobs_scalar(chk.tier)
+    heavy = [x for x in sc if "n=4" in x[2] or "poly" in x[2]]
+    jobs = heavy + jobs_blocked(chk.tier) + [x for x in sc if x not in heavy] + jobs_ilusym(chk.tier)
     names = []
-    for k, (name, text) in enumerate(jobs_for(chk.tier)):
+    for k, (part, module, name, text) in enumerate(jobs):
         fn = "gen_c08_%d_%d.cfg" % (os.getpid(), k)
         with open(os.path.join(vlib.SPEC, fn), "w") as f:
             f.write(text)
-        names.append((name, fn))
+        names.append((part, module, name, fn))
     cases = []
     try:
         with cf.ThreadPoolExecutor(max_workers=6) as ex:
-            futs = [(name, ex.submit(vlib.tlc, "Precond", fn, timeout=2400, xmx="3g", tag="c08_%d" % k)) for k, (name, fn) in enumerate(names)]
-            for name, f in futs:
+            futs = [(part, name, ex.submit(vlib.tlc, module, fn, timeout=2400, xmx="3g", tag="c08_%d" % k))
+                    for k, (part, module, name, fn) in enumerate(names)]
+            for part, name, f in futs:
                 r = f.result()
                 chk.add_tlc(r, name)
                 if r.violation:
-                    chk.model_violation(r, "Precond.tla law (%s)" % name)
+                    chk.model_violation(r, "%s law (%s)" % ({"scalar": "Precond.tla", "blocked": "PrecondBlk.tla", "ilusym": "IluSym.tla"}[part], name))
                 for c in r.printed:
                     c["_job"] = name
+                    c["_part"] = part
                 cases.extend(r.printed)
     finally:
-        for _, fn in names:
+        for _, _, _, fn in names:
             try:
                 os.remove(os.path.join(vlib.SPEC, fn))
             except OSError:
@@ -75,53 +151,110 @@ def generate(chk):
     return cases
 
 
+def dyad(v):
+    return "%d/%d" % (v[0], 1 << v[1]) if v[1] > 0 else str(v[0])
+
+
 def sig(c, r):
-    return {"kind": c["kind"], "n": c["n"], "clause": r.get("clause", "outcome_" + str(r.get("outcome", "error"))), "stale": bool(r.get("stale", False)),
-            "p": c["p"], "filtered": len(c["F"]) > 0, "outcome": r.get("outcome", "mismatch")}
+    part = c.get("_part", "scalar")
+    clause = r.get("clause", "outcome_" + str(r.get("outcome", "error")))
+    if part == "ilusym":
+        return {"part": part, "kind": "ilusym", "n": c["n"], "clause": clause, "p": r.get("p", -1), "src": c["src"]["kind"],
+                "outcome": r.get("outcome", "mismatch")}
+    s = {"kind": c["kind"], "n": c["n"], "clause": clause, "stale": bool(r.get("stale", False)),
+         "p": c["p"], "filtered": len(c["F"]) > 0, "outcome": r.get("outcome", "mismatch")}
+    if part == "blocked":
+        s.update({"part": part, "bs": c["bs"], "omega": dyad(c["w"]), "noncommuting": bool(any(c["noncomm"]))})
+    return s
 
 
 def key(c):
-    return json.dumps([c["n"], c["kind"], c["w"], c["m"], c["p"], c["F"], c["pat"], c["A1"], [s["op"] for s in c["steps"]]])
+    part = c.get("_part", "scalar")
+    if part == "ilusym":
+        return json.dumps(["ilusym", c["n"], c["pat"]])
+    return json.dumps([c.get("bs", 0), c["n"], c["kind"], c["w"], c["m"], c["p"], c["F"], c["pat"], c["A1"], [s["op"] for s in c["steps"]]])
+
+
+def nontrivial(c):
+    if c.get("_part") == "ilusym":
+        return c["exps"][-1] != c["pat"]          # some fill occurs
+    return c["n"] >= 2 and sum(sum(row) for row in c["pat"]) > c["n"]
 
 
 def run(chk):
-    binary, = vlib.build(["c08_precond"])
+    import time
+    t0 = time.time()
+    bins = dict(zip(HARNESS, vlib.build(list(HARNESS.values()))))
+    t1 = time.time()
     cases = generate(chk)
-    if not cases:
-        raise vlib.MachineryError("generator produced no cases")
-    res = vlib.run_cases(binary, cases, tmo=30)
-    vlib.judge_results(chk, cases, res, sig, keyf=key, harness="c08_precond",
-                       nontrivial=lambda c: c["n"] >= 2 and sum(sum(row) for row in c["pat"]) > c["n"])
+    t2 = time.time()
+    chk.extra["phase_wall_s"] = {"build": round(t1 - t0, 1), "tlc": round(t2 - t1, 1)}
+    for part in HARNESS:
+        sub = [c for c in cases if c["_part"] == part]
+        if not sub:
+            raise vlib.MachineryError("generator produced no cases for part " + part)
+        res = vlib.run_cases(bins[part], sub, tmo=30)
+        vlib.judge_results(chk, sub, res, sig, keyf=key, harness=HARNESS[part], nontrivial=nontrivial)
+        chk.extra["cases_" + part] = len(sub)
+    chk.extra["phase_wall_s"]["replay"] = round(time.time() - t2, 1)
     chk.traces = len(cases)
     hist = {}
     napply = 0
     for c in cases:
-        hist[c["kind"]] = hist.get(c["kind"], 0) + 1
-        napply += sum(len(s["exp"]) for s in c["steps"] if s["op"] == "AP")
+        if c["_part"] == "ilusym":
+            continue
+        k = c["kind"] if c["_part"] == "scalar" else "%s/bs%d" % (c["kind"], c["bs"])
+        hist[k] = hist.get(k, 0) + 1
+        ntests = len(c["tests"])
+        napply += sum(ntests for s in c["steps"] if s["op"] == "AP")
     chk.extra["cases_per_kind"] = hist
     chk.extra["apply_calls_compared"] = napply
-    chk.extra["ilu_cases_with_fill"] = sum(1 for c in cases if c["kind"] == "ilu" and c["ilu1"]["pat"] != c["pat"])
+    chk.extra["ilu_cases_with_fill"] = sum(1 for c in cases if c["_part"] == "scalar" and c["kind"] == "ilu" and c["ilu1"]["pat"] != c["pat"])
+    blk_ilu = [c for c in cases if c["_part"] == "blocked" and c["kind"] == "ilu"]
+    chk.extra["blocked_ilu"] = {"cases": len(blk_ilu), "with_fill": sum(1 for c in blk_ilu if c["ilupat"] != c["pat"]),
+                                "multiplier_does_not_commute_with_pivot_inverse": sum(1 for c in blk_ilu if any(c["noncomm"])),
+                                "pivot_block_modified_by_elimination": sum(1 for c in blk_ilu if c["pivmod"])}
+    sym = [c for c in cases if c["_part"] == "ilusym"]
+    chk.extra["ilusym"] = {"patterns": len(sym), "pattern_level_pairs": sum(len(c["exps"]) for c in sym),
+                           "pairs_with_rediscovery_at_lower_level": sum(sum(1 for x in c["redisc"] if x) for c in sym),
+                           "pairs_where_ignoring_the_rediscovery_changes_the_pattern": sum(sum(1 for x in c["sens"] if x) for c in sym),
+                           "patterns_with_rediscovery": sum(1 for c in sym if any(c["redisc"])),
+                           "patterns_sensitive_to_rediscovery": sum(1 for c in sym if any(c["sens"]))}
     chk.exhaustive = True
-    chk.rule = ("every initial state of spec/Precond.tla within the bounds (all sparsity patterns containing the diagonal for n <= 3, "
-                "bounded/sharded for n = 4; value palettes; omega in {1/2,1,3/2}; ILU fill levels 0..3; polynomial order 1..3; filtered dofs) "
+    chk.rule = ("every initial state of spec/Precond.tla (scalar) and spec/PrecondBlk.tla (block sizes 2 and 3) within the bounds (all sparsity "
+                "patterns containing the diagonal for n <= 3 scalars resp. blocks, bounded/sharded for n = 4 and for 3x3 blocks in the quick tier; "
+                "value palettes; omega in {1/2,1,3/2}; ILU fill levels; polynomial order 1..3; filtered dofs/blocks) "
                 "that lies in the exact dyadic domain, each with the canonical life-cycle history init_symbolic, init_numeric, apply, "
                 "update values, apply (stale), init_numeric, apply, done_numeric, update, init_numeric, apply, done_numeric, done_symbolic "
-                "(or every history of bounded length), each apply on n+2 test vectors; non-trivial = n >= 2 with off-diagonal entries")
-    for c in cases[len(cases) // 2: len(cases) // 2 + 2]:
-        chk.sample({k: c[k] for k in ("n", "kind", "w", "p", "m", "pat", "A1")})
-    chk.assumptions = ["matrices are restricted to the exact dyadic domain: power-of-two diagonals (ILU: power-of-two pivots); inputs whose "
-                       "factorisation leaves it are not generated",
-                       "scalar SparseMatrixCSR<double> with UnitFilter only; blocked (BCSR) variants and Schwarz/Uzawa/Vanka are not covered",
+                "(or every history of bounded length), each apply on all unit vectors, a generic vector g and 2g - e1; plus every pattern of the "
+                "seeded pseudo-random / crafted family of spec/IluSym.tla (n = 5..10) with its ILU(p) patterns, p = 0..4; "
+                "non-trivial = n >= 2 with off-diagonal entries (ilusym: some fill)")
+    for part in HARNESS:
+        sub = [c for c in cases if c["_part"] == part]
+        for c in sub[len(sub) // 2: len(sub) // 2 + 2]:
+            chk.sample({k: c[k] for k in ("bs", "n", "kind", "w", "p", "m", "pat", "A1", "src") if k in c})
+    chk.assumptions = ["matrices are restricted to the exact dyadic domain: power-of-two diagonals (ILU: power-of-two pivots), blocked: diagonal "
+                       "(ILU: pivot) blocks with determinant +-2^k; inputs whose factorisation leaves it are not generated",
+                       "SparseMatrixCSR<double> with UnitFilter and SparseMatrixBCSR<double,Index,BS,BS> (BS = 2, 3) with UnitFilterBlocked, generic "
+                       "backend; Schwarz/Uzawa/Vanka are not covered",
+                       "JacobiPrecond/PolynomialPrecond on blocked matrices are the POINTWISE operators (scalar main diagonal), as implemented "
+                       "and documented (extract_diag); block-Jacobi is not a FEAT preconditioner",
                        "between a value update and the next init_numeric the result is unspecified: old-operator, new-operator and (Polynomial) "
-                       "cached-diagonal/live-matrix results are all accepted"]
+                       "cached-diagonal/live-matrix results are all accepted",
+                       "named deviations of the blocked specification (ssor_unscaled, ilu_left_mult) only refine the clause of a reported mismatch"]
 
 
 def replay(obj):
-    binary, = vlib.build(["c08_precond"])
-    cases = [v["replay"]["case"] for v in obj["violations"] if v["replay"] and v["replay"].get("kind") == "case"]
-    res = vlib.run_cases(binary, cases, tmo=30, shards=1)
+    bins = dict(zip(HARNESS, vlib.build(list(HARNESS.values()))))
+    by_h = {v: k for k, v in HARNESS.items()}
     bad = 0
-    for c, r in zip(cases, res):
+    for v in obj["violations"]:
+        rp = v["replay"]
+        if not rp or rp.get("kind") != "case":
+            continue
+        c = rp["case"]
+        part = c.get("_part") or by_h.get(rp.get("harness"), "scalar")
+        r, = vlib.run_cases(bins[part], [c], tmo=30, shards=1)
         print(json.dumps({"case": sig(c, r), "result": r})[:1000])
         if r.get("ok") is not True:
             bad += 1
